@@ -903,6 +903,34 @@ func (t *Topic) sessToForeground(sess *Session) {
 	}
 }
 
+// notifyP2PSubRestored announces a P2P subscription which was created again for the other user (who had
+// unsubscribed) because this user attached to the topic. The other user is told about the subscription
+// and the two 'me' topics are made to track each other again: the other user's 'me' dropped this user
+// when the subscription was deleted.
+func (t *Topic) notifyP2PSubRestored(asUid types.Uid) {
+	uid2 := t.p2pOtherUser(asUid)
+	pud, pud2 := t.perUser[asUid], t.perUser[uid2]
+	if pud.deleted || pud2.deleted {
+		return
+	}
+	mode, mode2 := pud.modeGiven&pud.modeWant, pud2.modeGiven&pud2.modeWant
+
+	// Tell the other user's sessions that they are subscribed (again).
+	t.presSingleUserOffline(uid2, mode2, "acs", &presParams{
+		dWant:  pud2.modeWant.String(),
+		dGiven: pud2.modeGiven.String(),
+		actor:  asUid.UserId(),
+	}, "", false)
+	// Make the other user's 'me' topic accept notifications from this user,
+	t.presSingleUserOffline(uid2, mode2, "?none+en", nilPresParams, "", false)
+	// then have this user's 'me' report the status to it and ask for the other user's.
+	status := "?unkn"
+	if mode.IsPresencer() {
+		status += "+en"
+	}
+	t.presSingleUserOffline(asUid, mode, status, nilPresParams, "", false)
+}
+
 // Send immediate presence notification in response to a subscription.
 // Send push notification to the P2P counterpart.
 // In case of a new channel subscription subscribe user to an FCM topic.
@@ -1496,6 +1524,10 @@ func (t *Topic) subscriptionReply(asChan bool, msg *ClientComMessage) error {
 	// Some notifications are always sent immediately.
 	if modeChanged != nil {
 		t.sendImmediateSubNotifications(asUid, modeChanged, msg, now)
+	} else if msgsub.Created && t.cat == types.TopicCatP2P {
+		// The requester's own subscription is unchanged, but the other user's subscription was missing
+		// and has been created again while loading the topic.
+		t.notifyP2PSubRestored(asUid)
 	}
 
 	if !msg.sess.background && hasJoined {
